@@ -2,6 +2,7 @@ package main
 
 import (
 	"fmt"
+	"go/token"
 	"regexp"
 	"sort"
 	"strings"
@@ -531,4 +532,196 @@ func ruleArchiveIDDispatch(w *World, r *Report, rule string) {
 		}
 		r.Check(len(bad) == 0, rule, key, w.pos(f.Pos()), "selections -3..3 on a 2-archive file: only ids 0 and 1 reach "+reader.Name()+", 'all' reads both, everything else fails", first+": an out-of-range archive id reaches code that indexes the archive list (panic) or a valid one is refused")
 	}
+}
+
+// ruleLayoutEquality (decision diagrams): ArchiveInfo.Equal is true exactly when step and point count are both
+// equal; ArchiveInfoList.Equal is true exactly when the lengths are equal and every pair of elements is Equal.
+// The commands' "unequal layouts are an error" rests on these two predicates.
+func ruleLayoutEquality(w *World, r *Report, rule string) {
+	// --- element predicate
+	if f := fn(w.Lib, "ArchiveInfo.Equal"); f == nil || len(f.Params) != 2 {
+		r.Undecided(rule, "ArchiveInfo.Equal", "-", "ArchiveInfo.Equal not found")
+	} else {
+		e := &ddEngine{w: w, env: map[ssa.Value]aval{}, maxLeafs: 32}
+		e.run(f)
+		bad := ""
+		if e.err != nil {
+			bad = "cannot evaluate: " + e.err.Error()
+		}
+		sawTrue := false
+		fieldOf := func(v ssa.Value) (string, bool) { // (field compared for equality, is ==)
+			bo, ok := v.(*ssa.BinOp)
+			if !ok || (bo.Op != token.EQL && bo.Op != token.NEQ) {
+				return "", false
+			}
+			ex := newExprCtx(w)
+			xs, ys := ex.expr(bo.X), ex.expr(bo.Y)
+			for _, fn := range []string{"secondsPerPoint", "numberOfPoints"} {
+				if (xs == "p0."+fn && ys == "p1."+fn) || (xs == "p1."+fn && ys == "p0."+fn) {
+					return fn, bo.Op == token.EQL
+				}
+			}
+			return "", false
+		}
+		for _, l := range e.leaves {
+			if l.ret == nil || len(l.results) != 1 {
+				bad = "a path does not return a boolean"
+				continue
+			}
+			// field equalities known on this path
+			eq := map[string]bool{}
+			for key, chosen := range l.atoms {
+				fld, isEq := fieldOf(l.atomVal[key])
+				if fld == "" {
+					bad = "a condition other than the two field comparisons decides the result (" + key + ")"
+					continue
+				}
+				eq[fld] = chosen == isEq
+			}
+			res := l.results[0]
+			canBeTrue := false
+			switch {
+			case res.k == kBool:
+				canBeTrue = res.b
+			default:
+				// the result is itself a comparison: true exactly when that field is equal as well
+				rv := res.sym
+				if rv == nil {
+					rv = l.ret.Results[0]
+				}
+				fld, isEq := fieldOf(rv)
+				if fld == "" || !isEq {
+					bad = "the result is " + newExprCtx(w).expr(rv) + ", not an equality of the remaining field"
+					continue
+				}
+				eq[fld] = true
+				canBeTrue = true
+			}
+			if !canBeTrue {
+				continue
+			}
+			if !(eq["secondsPerPoint"] && eq["numberOfPoints"]) {
+				bad = "two archives are reported equal although step or point count differs (or was not compared)"
+			} else {
+				sawTrue = true
+			}
+		}
+		if bad == "" && !sawTrue {
+			bad = "no path reports equality"
+		}
+		r.Check(bad == "", rule, "ArchiveInfo.Equal", w.pos(f.Pos()), "equal iff step and point count are both equal", "ArchiveInfo.Equal is not `same step and same point count`: "+bad+" — files of different layouts pass the commands' layout check")
+	}
+	// --- list predicate
+	lf := fn(w.Lib, "ArchiveInfoList.Equal")
+	el := fn(w.Lib, "ArchiveInfo.Equal")
+	if lf == nil || el == nil || len(lf.Params) != 2 {
+		r.Undecided(rule, "ArchiveInfoList.Equal", "-", "ArchiveInfoList.Equal not found")
+		return
+	}
+	var bads []string
+	for _, lens := range [][2]int64{{2, 2}, {2, 3}, {3, 2}} {
+		e := &ddEngine{w: w, env: map[ssa.Value]aval{}, maxLeafs: 64, concreteAtoms: true}
+		eachInstr(lf, func(in ssa.Instruction) {
+			if c, ok := in.(*ssa.Call); ok {
+				if b, ok := c.Call.Value.(*ssa.Builtin); ok && b.Name() == "len" {
+					switch stripChangeType(c.Call.Args[0]) {
+					case ssa.Value(lf.Params[0]):
+						e.env[c] = aval{k: kInt, i: lens[0]}
+					case ssa.Value(lf.Params[1]):
+						e.env[c] = aval{k: kInt, i: lens[1]}
+					}
+				}
+			}
+		})
+		e.run(lf)
+		if e.err != nil {
+			bads = append(bads, "cannot evaluate: "+e.err.Error())
+			continue
+		}
+		for _, l := range e.leaves {
+			if l.ret == nil || len(l.results) != 1 || l.results[0].k != kBool {
+				bads = append(bads, "a path does not return a decided boolean")
+				continue
+			}
+			if !l.results[0].b {
+				continue
+			}
+			if lens[0] != lens[1] {
+				bads = append(bads, fmt.Sprintf("lists of %d and %d archives are reported equal", lens[0], lens[1]))
+				continue
+			}
+			// every index compared, each found equal
+			n := 0
+			for key, chosen := range l.atoms {
+				c, ok := l.atomVal[key].(*ssa.Call)
+				if !ok || c.Common().StaticCallee() != el {
+					continue
+				}
+				if !chosen {
+					bads = append(bads, "lists are reported equal although a pair of elements is not Equal")
+				}
+				n++
+			}
+			if int64(n) != lens[0] {
+				bads = append(bads, fmt.Sprintf("lists of %d archives are reported equal after comparing %d pairs", lens[0], n))
+			}
+		}
+	}
+	sort.Strings(bads)
+	first := ""
+	if len(bads) > 0 {
+		first = bads[0]
+	}
+	r.Check(len(bads) == 0, rule, "ArchiveInfoList.Equal", w.pos(lf.Pos()), "equal iff same length and every pair of elements Equal (decided for lengths 2/2, 2/3, 3/2)", "ArchiveInfoList.Equal: "+first+" — files of different layouts pass the commands' layout check")
+}
+
+// ruleListStringJoin (decision diagram): ArchiveInfoList.String, evaluated for a list of three archives, writes
+// element 0, ",", element 1, ",", element 2 — the syntax ParseArchiveInfoList splits on.
+func ruleListStringJoin(w *World, r *Report, rule string) {
+	f := fn(w.Lib, "ArchiveInfoList.String")
+	if f == nil || len(f.Params) != 1 {
+		r.Undecided(rule, "ArchiveInfoList.String:join", "-", "ArchiveInfoList.String not found")
+		return
+	}
+	e := &ddEngine{w: w, env: map[ssa.Value]aval{}, maxLeafs: 16, concreteAtoms: true}
+	eachInstr(f, func(in ssa.Instruction) {
+		if c, ok := in.(*ssa.Call); ok {
+			if b, ok := c.Call.Value.(*ssa.Builtin); ok && b.Name() == "len" && stripChangeType(c.Call.Args[0]) == ssa.Value(f.Params[0]) {
+				e.env[c] = aval{k: kInt, i: 3}
+			}
+		}
+	})
+	var seq []string
+	reIdx := regexp.MustCompile(`\[(\d+)\]`)
+	e.onCall = func(s *ddState, c *ssa.Call) {
+		sc := c.Common().StaticCallee()
+		if sc == nil {
+			return
+		}
+		isWrite := isMethodFunc(sc, "strings", "Builder", "WriteString") || isMethodFunc(sc, "bytes", "Buffer", "WriteString")
+		if !isWrite || len(c.Common().Args) < 2 {
+			return
+		}
+		arg := c.Common().Args[1]
+		if k, ok := constString(arg); ok {
+			seq = append(seq, fmt.Sprintf("%q", k))
+			return
+		}
+		if cc, ok := arg.(*ssa.Call); ok && cc.Common().StaticCallee() == fn(w.Lib, "ArchiveInfo.String") {
+			if m := reIdx.FindStringSubmatch(e.keyOf(s, cc.Common().Args[0])); m != nil {
+				seq = append(seq, "E"+m[1])
+				return
+			}
+		}
+		seq = append(seq, "?")
+	}
+	e.run(f)
+	got := strings.Join(seq, " ")
+	want := `E0 "," E1 "," E2`
+	ok := e.err == nil && len(e.leaves) == 1 && got == want
+	detail := got
+	if e.err != nil {
+		detail = e.err.Error()
+	}
+	r.Check(ok, rule, "ArchiveInfoList.String:join", w.pos(f.Pos()), "a list of three prints as e0,e1,e2", "ArchiveInfoList.String of a three-archive list writes ["+detail+"] instead of e0 \",\" e1 \",\" e2: the printed retention list is not what ParseArchiveInfoList accepts (or parses to another list)")
 }
